@@ -1,7 +1,7 @@
 ----------------------------- MODULE NarrowTrace -----------------------------
 EXTENDS DistanceJudge, TLC, Json, IOUtils
 T == ndJsonDeserialize(IOEnv.TRACE_FILE)
-F(r) == IF r.kind = "bool" THEN BoolFailing(r) ELSE IF r.kind = "term" THEN TermFailing(r) ELSE IF r.kind = "prim" THEN PrimFailing(r) ELSE IF r.kind = "pair" THEN PairFailing(r) ELSE Failing(r)
+F(r) == IF r.kind = "bool" THEN BoolFailing(r) ELSE IF r.kind = "term" THEN TermFailing(r) ELSE IF r.kind = "prim" THEN PrimFailing(r) ELSE IF r.kind = "pair" THEN PairFailing(r) ELSE IF r.kind = "pen" THEN PenFailing(r) ELSE Failing(r)
 BadIdx == {i \in 1..Len(T) : F(T[i]) # {}}
 ASSUME /\ \A i \in BadIdx : PrintT(<<"REJECT", T[i].id, F(T[i])>>)
        /\ PrintT(<<"JUDGED", Len(T), Cardinality(BadIdx)>>)
